@@ -272,5 +272,7 @@ func checkC06(w *World, r *Report) {
 	r.Sub(checkC05, "FP-REMAINDER", "FP-CAP")
 	r.Sub(checkC08, "OPEN-GUARD")
 	r.Sub(checkC10, "AL-DOM")
-	r.Sub(func(w *World, r *Report) { checkC01(w, r) }, "PAIR-RESERVE")
+	r.SubWhere(func(w *World, r *Report) { checkC01(w, r) }, func(_, c string) bool {
+		return strings.HasPrefix(c, "PlaceBid:") && !strings.Contains(c, "BidTypeBatch")
+	} /* every bid type a fixed price auction can be handed */, "PAIR-RESERVE")
 }
